@@ -46,6 +46,9 @@ BAD = 999999
 STR_POOL = ["a", "b", "c", "cat", "dog", "A", "Z", "x1", "x10", "x2", "zebra", "B"]
 
 
+NARROW = {"u1": np.uint8, "i2": np.int16, "u2": np.uint16, "i4": np.int32}
+
+
 def n_cases(tier):
     return 2000 if tier == "quick" else 16000
 
@@ -115,7 +118,10 @@ def gen_one(rng, i, tier):
             "wkind": wkind, "weights": weights, "shape": shape, "skind": skind, "stack": stack,
             "use_cm1": bool(rng.random() < 0.5), "stack_classes": rng.choice(["explicit", "none"]),
             "seed": rng.randrange(10**9), "err": rng.choice(ERRS), "extra": extra,
-            "as_array": bool(rng.random() < 0.5)}
+            "as_array": bool(rng.random() < 0.5),
+            # counts held in a small integer dtype (uint8 images of counts, int16 / int32 tallies): every cell fits, row
+            # sums, traces and totals need not
+            "narrow": rng.choice(["u1", "u1", "i2", "i4", "u2"]) if rng.random() < 0.15 else None}
 
 
 def nontrivial(inp):
@@ -246,6 +252,8 @@ def build(inp) -> Case:
         w = weights_
         if w is not None and inp["as_array"]:
             w = np.asarray(w)
+        if w is not None and inp.get("narrow") and inp["wkind"] == "int" and len(w) and max(w) < 120:
+            w = np.asarray(w, dtype=NARROW[inp["narrow"]])
         return common.call(lambda: ConfusionMatrix(labels=la, predictions=pr, weights=w, classes=classes_))
 
     def build_line(labels_, preds_, weights_, classes_, r, obs, eps):
@@ -367,6 +375,10 @@ def build(inp) -> Case:
     else:
         dt = int if skind == "int" else float
         arr = np.array(inp["stack"], dtype=dt).reshape(shape + [N, N])
+        if skind == "int" and inp.get("narrow") and arr.size and int(arr.max()) <= 100:
+            # entries up to 100 fit every narrow dtype; scaled up so that sums leave uint8 / int16 while cells stay inside
+            k_ = {"u1": 2, "i2": 300, "u2": 600, "i4": 2 * 10 ** 7}[inp["narrow"]]
+            arr = (arr * k_).astype(NARROW[inp["narrow"]])
         if inp["stack_classes"] == "explicit":
             scls = list(universe)
             scls_arg = scls
